@@ -123,7 +123,7 @@ def live (c : ChanSt) : Bool := !c.destroyed
 /-- returns the new state, the lines of the block, and whether the run ends here (abort) -/
 def doOp (st : St) (w : List String) : St × List String × Bool :=
   match w with
-  | ["flavour", f] => ({ st with asserts := f != "ndebug" }, [], false)
+  | ["flavour", f] => ({ st with asserts := f != "ndebug" && f != "asan-ndebug" }, [], false)
   | ["chan", c, kind] =>
     match c.toNat? with
     | some c =>
